@@ -414,8 +414,8 @@ class Report:
         ev = dict(property_id=self.prop, tier=self.tier, seed=self.seed, level=self.level, coverage=cov,
                   assumptions=self.assumptions, wall_s=round(time.time() - self.t0, 2),
                   violations=len(fresh), known_findings_matched=sum(hit.values()), notes=self.notes)
-        ensure(os.path.join(VERIF, 'evidence'))
-        json.dump(ev, open(os.path.join(VERIF, 'evidence', self.prop + '.json'), 'w'), indent=1)
+        edir = ensure(os.environ.get('VERIF_EVIDENCE_DIR') or os.path.join(VERIF, 'evidence'))
+        json.dump(ev, open(os.path.join(edir, self.prop + '.json'), 'w'), indent=1)
         sys.stdout.flush()
         return 1 if fresh else 0
 
